@@ -31,6 +31,8 @@ pub fn braille_mathml(mathml: Element, nav_node_id: &str) -> Result<(String, usi
                         .chain_err(|| "Pattern match/replacement failure!")?;
         // debug!("braille_mathml: braille string: {}", &braille_string);
         let braille_string = braille_string.replace(' ', "");
+        #[cfg(mathcat_verif)]
+        let verif_raw = braille_string.clone();
         let pref_manager = rules_with_context.get_rules().pref_manager.borrow();
         let highlight_style = pref_manager.pref_to_string("BrailleNavHighlight");
         let braille_code = pref_manager.pref_to_string("BrailleCode");
@@ -46,6 +48,8 @@ pub fn braille_mathml(mathml: Element, nav_node_id: &str) -> Result<(String, usi
             _ => braille_string.trim_matches('⠀').to_string(),    // probably needs cleanup if someone has another code, but this will have to get added by hand
         };
 
+        #[cfg(mathcat_verif)]
+        verif_log_braille(&verif_raw, &braille);
         return Ok(
             if highlight_style != "Off" {
                 highlight_braille_chars(braille, &braille_code, highlight_style == "All")
@@ -3086,4 +3090,21 @@ mod tests {
         assert_eq!("⠭⠔⠝", braille, "Grade1");
         return Ok( () );
     }
+}
+
+// ---- verification hooks (compiled only with --cfg mathcat_verif); see /verif/DESIGN.md §5 (H3)
+#[cfg(mathcat_verif)]
+thread_local!{
+    static VERIF_BRAILLE_LOG: RefCell<(String, String)> = const { RefCell::new((String::new(), String::new())) };
+}
+
+#[cfg(mathcat_verif)]
+fn verif_log_braille(raw: &str, cleaned: &str) {
+    VERIF_BRAILLE_LOG.with(|log| *log.borrow_mut() = (raw.to_string(), cleaned.to_string()));
+}
+
+/// (string produced by the braille rules before the per-code clean-up, string after clean-up and before highlighting) of the last braille_mathml call
+#[cfg(mathcat_verif)]
+pub fn verif_last_braille() -> (String, String) {
+    return VERIF_BRAILLE_LOG.with(|log| log.borrow().clone());
 }
